@@ -754,4 +754,345 @@ theorem bounded_foldl_nak (ns : List Nat) (ws : WVec) (h : Bounded ws) : Bounded
   | nil => exact h
   | cons e rest ih => simp only [List.foldl_cons]; exact ih _ (bounded_nak ws e h)
 
+/-! ## `process_connection_events` on the window vector -/
+
+section scalar2
+variable [Scalar F]
+
+theorem srtAck_frame (c : Conn) (ack : Int) (now : Nat) :
+    (c.srtAck ack now).1.window = c.window ∧ live (c.srtAck ack now).1 = live c ∧
+    (c.srtAck ack now).1.cong = c.cong := by
+  unfold Conn.srtAck
+  split
+  · exact ⟨rfl, rfl, rfl⟩
+  · exact ⟨rfl, rfl, rfl⟩
+
+theorem flink_srtAck_core (l : FLink F) (ack : Int) (now : Nat) :
+    (l.srtAck ack now).core = (l.core.srtAck ack now).1 := by
+  unfold FLink.srtAck
+  generalize l.core.srtAck ack now = r
+  obtain ⟨c, sample⟩ := r
+  cases sample <;> rfl
+
+theorem wv_cores_srtAck (ls : List (FLink F)) (ack : Int) (now : Nat) :
+    wv (cores (ls.map fun l => l.srtAck ack now)) = wv (cores ls) := by
+  unfold wv cores
+  rw [List.map_map, List.map_map, List.map_map]
+  apply List.map_congr_left
+  intro l _
+  simp only [Function.comp]
+  rw [flink_srtAck_core]
+  obtain ⟨h1, h2, -⟩ := srtAck_frame l.core ack now
+  rw [h1, h2]
+
+theorem acks_fold (acks : List Nat) (ls : List (FLink F)) (now : Nat) :
+    wv (cores (acks.foldl (fun ls a => ls.map fun l => l.srtAck (toI32 a) now) ls)) = wv (cores ls) := by
+  induction acks generalizing ls with
+  | nil => rfl
+  | cons a rest ih =>
+    simp only [List.foldl_cons]
+    rw [ih, wv_cores_srtAck]
+
+theorem cores_withCores (ls : List (FLink F)) (cs : Links) (h : cs.length = ls.length) :
+    cores (withCores ls cs) = cs := by
+  unfold cores withCores
+  rw [List.map_map]
+  induction ls generalizing cs with
+  | nil =>
+    cases cs with
+    | nil => rfl
+    | cons c t => simp at h
+  | cons l rest ih =>
+    cases cs with
+    | nil => simp at h
+    | cons c t =>
+      simp only [List.zip_cons_cons, List.map_cons, Function.comp]
+      rw [ih t (by simpa using h)]
+
+theorem length_cores (ls : List (FLink F)) : (cores ls).length = ls.length := by
+  unfold cores; exact List.length_map _
+
+/-- The cumulative-ACK / SRTLA-ACK / NAK fan-out of one uplink datagram, classic mode: the window
+vector moves by one reference SACK event per SRTLA-acknowledged number, then at most one reference
+NAK event per NAKed number; cumulative SRT ACKs move no window. -/
+theorem processConnectionEvents_wv (s : Sys F) (idx : Nat) (inc : Incoming) (now : Nat)
+    (hc : s.cfg.classic = true) (hb : ∀ l ∈ s.links, l.core.window ≤ 60000) :
+    ∃ (es : List (Option (Nat × Int))) (ns : List Nat),
+      es.length = inc.sacks.length ∧ ns.length ≤ inc.naks.length ∧
+      wv (cores (processConnectionEvents s idx inc now).1.links) =
+        ns.foldl refNakEvent (es.foldl refSackEvent (wv (cores s.links))) := by
+  unfold processConnectionEvents
+  dsimp only
+  rw [hc]
+  generalize hls1 : inc.acks.foldl (fun ls a => ls.map fun l => l.srtAck (toI32 a) now) s.links = ls1
+  have h1 : wv (cores ls1) = wv (cores s.links) := by rw [← hls1]; exact acks_fold _ _ _
+  have hb0 : Bounded (wv (cores s.links)) := by
+    rw [bounded_wv]
+    intro c hc
+    obtain ⟨l, hl, rfl⟩ := List.mem_map.1 hc
+    exact hb l hl
+  have hb1 : ∀ c ∈ cores ls1, c.window ≤ 60000 := by rw [← bounded_wv, h1]; exact hb0
+  obtain ⟨es, hel, hes⟩ := sacks_fold inc.sacks (cores ls1) idx now hb1
+  generalize inc.sacks.foldl (fun cs a => evSrtlaAck cs idx (toI32 a) true now) (cores ls1) = cs2 at hes
+  obtain ⟨ns, hnl, hns⟩ := naks_fold inc.naks cs2 s.trk now
+  generalize inc.naks.foldl (fun cs n => (attributeNak cs s.trk n now).1) cs2 = cs3 at hns
+  refine ⟨es, ns, hel, hnl, ?_⟩
+  have hlen : cs3.length = ls1.length := by
+    rw [← length_wv cs3, hns, length_foldl_nak, hes, length_foldl_sack, length_wv, length_cores]
+  rw [cores_withCores ls1 cs3 hlen, hns, hes, h1]
+
+end scalar2
+
+/-! ## Housekeeping: no time-based recovery in classic mode -/
+
+section scalar3
+variable [Scalar F]
+
+theorem keepalivePacket_frame (l : FLink F) (now : Nat) :
+    (l.keepalivePacket now).1.core.window = l.core.window ∧ (l.keepalivePacket now).1.core.cong = l.core.cong :=
+  ⟨rfl, rfl⟩
+
+theorem updatePhase_frame (l : FLink F) (now : Nat) :
+    (l.updatePhase now).core.window = l.core.window ∧ (l.updatePhase now).core.cong = l.core.cong := by
+  unfold FLink.updatePhase
+  dsimp only
+  split
+  · split <;> exact ⟨rfl, rfl⟩
+  · split <;> exact ⟨rfl, rfl⟩
+  · split <;> exact ⟨rfl, rfl⟩
+  · exact ⟨rfl, rfl⟩
+
+/-- What the per-link housekeeping pass of classic mode does to one link's window and congestion
+state: either the link takes the reconnect branch (timed out and a reconnect attempt is due; it is
+reset to the initial window 20000, disconnected, registering, fresh congestion state), or both are
+left exactly as they were. -/
+def HkRel (now : Nat) (l l' : FLink F) : Prop :=
+  (l.isTimedOut now = true ∧ l.shouldAttemptReconnect now = true ∧ l'.core.window = 20000 ∧
+    l'.core.connected = false ∧ l'.core.phase = .registering ∧ l'.core.cong = {}) ∨
+  (l'.core.window = l.core.window ∧ l'.core.cong = l.core.cong)
+
+/-- Pointwise relation between two lists of equal length. -/
+def PW {α : Type} (R : α → α → Prop) (xs ys : List α) : Prop :=
+  xs.length = ys.length ∧ ∀ (j : Nat) x, xs[j]? = some x → ∃ y, ys[j]? = some y ∧ R x y
+
+theorem PW_nil {α : Type} (R : α → α → Prop) : PW R [] [] := ⟨rfl, fun j x h => by simp at h⟩
+
+theorem PW_cons {α : Type} {R : α → α → Prop} {x y : α} {xs ys : List α} (h : R x y) (ht : PW R xs ys) :
+    PW R (x :: xs) (y :: ys) := by
+  refine ⟨by simp [ht.1], fun j a ha => ?_⟩
+  cases j with
+  | zero =>
+    have : x = a := by simpa using ha
+    subst this
+    exact ⟨y, rfl, h⟩
+  | succ j => exact ht.2 j a (by simpa using ha)
+
+theorem hkLinksGo_PW (now : Nat) (ls : List (FLink F)) (i : Nat) (reg : Reg.Reg) :
+    PW (HkRel now) ls (hkLinksGo true now ls i reg).1 := by
+  have hI := wconsts.2.2.1
+  induction ls generalizing i reg with
+  | nil => exact PW_nil _
+  | cons l rest ih =>
+    rw [hkLinksGo]
+    split
+    · rename_i hto
+      split
+      · rename_i hra
+        split
+        · split
+          · split
+            rename_i reg1 pkt hb
+            split
+            rename_i r reg2 w heq
+            have e := congrArg Prod.fst heq
+            dsimp only at e ⊢
+            rw [← e]
+            exact PW_cons (Or.inl ⟨hto, hra, hI, rfl, rfl, rfl⟩) (ih _ _)
+          · split
+            rename_i r reg2 w heq
+            have e := congrArg Prod.fst heq
+            dsimp only at e ⊢
+            rw [← e]
+            exact PW_cons (Or.inl ⟨hto, hra, hI, rfl, rfl, rfl⟩) (ih _ _)
+        · split
+          rename_i r reg2 w heq
+          have e := congrArg Prod.fst heq
+          dsimp only at e ⊢
+          rw [← e]
+          exact PW_cons (Or.inl ⟨hto, hra, hI, rfl, rfl, rfl⟩) (ih _ _)
+      · split
+        rename_i r reg2 w heq
+        have e := congrArg Prod.fst heq
+        dsimp only at e ⊢
+        rw [← e]
+        exact PW_cons (Or.inr ⟨rfl, rfl⟩) (ih _ _)
+    · split
+      rename_i l1 w1 h1
+      split
+      rename_i l2 w2 h2
+      have f1 : l1.core.window = l.core.window ∧ l1.core.cong = l.core.cong := by
+        split at h1 <;>
+          (have e1 := congrArg Prod.fst h1; dsimp only at e1; subst e1; exact ⟨rfl, rfl⟩)
+      have f2 : l2.core.window = l1.core.window ∧ l2.core.cong = l1.core.cong := by
+        split at h2 <;>
+          (have e2 := congrArg Prod.fst h2; dsimp only at e2; subst e2; exact ⟨rfl, rfl⟩)
+      simp only [Bool.not_true, Bool.false_eq_true, if_false]
+      refine PW_cons (Or.inr ?_) (ih _ _)
+      obtain ⟨u1, u2⟩ := updatePhase_frame ({ l2 with bitrate := l2.bitrate.calculate now } : FLink F) now
+      exact ⟨u1.trans (f2.1.trans f1.1), u2.trans (f2.2.trans f1.2)⟩
+
+theorem PW_refl {α : Type} {R : α → α → Prop} (h : ∀ x, R x x) (xs : List α) : PW R xs xs :=
+  ⟨rfl, fun _ x hx => ⟨x, hx, h x⟩⟩
+
+theorem PW_trans {α : Type} {R S T : α → α → Prop} (h : ∀ x y z, R x y → S y z → T x z)
+    {xs ys zs : List α} (h1 : PW R xs ys) (h2 : PW S ys zs) : PW T xs zs := by
+  refine ⟨h1.1.trans h2.1, fun j x hx => ?_⟩
+  obtain ⟨y, hy, r⟩ := h1.2 j x hx
+  obtain ⟨z, hz, s⟩ := h2.2 j y hy
+  exact ⟨z, hz, h x y z r s⟩
+
+theorem PW_map {α : Type} {R : α → α → Prop} (f : α → α) (h : ∀ x, R x (f x)) (xs : List α) :
+    PW R xs (xs.map f) := by
+  refine ⟨(List.length_map _).symm, fun j x hx => ⟨f x, ?_, h x⟩⟩
+  rw [List.getElem?_map, hx]; rfl
+
+theorem PW_mapIdx {α : Type} {R : α → α → Prop} (f : Nat → α → α) (h : ∀ j x, R x (f j x)) (xs : List α) :
+    PW R xs (xs.mapIdx f) := by
+  refine ⟨List.length_mapIdx.symm, fun j x hx => ⟨f j x, ?_, h j x⟩⟩
+  rw [List.getElem?_mapIdx, hx]; rfl
+
+/-- Only the grace deadline differs. -/
+def GraceRel (l l0 : FLink F) : Prop := ∃ g, l0 = { l with graceDeadline := g }
+
+/-- Window, congestion state, connected flag and phase are the same (what the send stamps keep). -/
+def StampRel (l l' : FLink F) : Prop :=
+  l'.core.window = l.core.window ∧ l'.core.cong = l.core.cong ∧ l'.core.connected = l.core.connected ∧
+    l'.core.phase = l.core.phase
+
+def TickRel (now : Nat) (l l' : FLink F) : Prop :=
+  (l'.core.window = l.core.window ∧ l'.core.cong = l.core.cong) ∨
+  (l'.core.window = 20000 ∧ l'.core.connected = false ∧ l'.core.phase = .registering ∧ l'.core.cong = {} ∧
+    ∃ g, ({ l with graceDeadline := g } : FLink F).isTimedOut now = true ∧
+         ({ l with graceDeadline := g } : FLink F).shouldAttemptReconnect now = true)
+
+/-- Step 1 of `handle_housekeeping`: pending-timeout clearing and probing completion (which may
+re-arm the grace window of the chosen link). -/
+def hkPrep (s : Sys F) (now : Nat) : Reg.Reg × List (FLink F) :=
+  let (reg0, _) := Reg.clearPendingIfTimedOut s.reg now
+  if Reg.isProbing reg0 then
+    let (r, _) := Reg.checkProbingComplete reg0 now
+    if !Reg.isProbing r then
+      match r.target with
+      | some idx =>
+        (r, s.links.mapIdx fun j l => if j = idx then { l with graceDeadline := now + Conn.STARTUP_GRACE_MS } else l)
+      | none => (r, s.links)
+    else (r, s.links)
+  else (reg0, s.links)
+
+/-- Steps 3-4: the registration driver's sends only stamp `last_sent`. -/
+def hkStamp (sends : Reg.DriverSends) (now : Nat) (ls1 : List (FLink F)) : List (FLink F) :=
+  let ls2 := match sends.reg1 with
+    | some (idx, _) =>
+      match ls1[idx]? with
+      | some l => setAt ls1 idx { l with core := { l.core with lastSent := some now } }
+      | none => ls1
+    | none => ls1
+  match sends.broadcastReg2 with
+  | some _ => ls2.map fun (l : FLink F) => { l with core := { l.core with lastSent := some now } }
+  | none => ls2
+
+theorem handleHousekeeping_links (s : Sys F) (now : Nat) :
+    ∃ sends : Reg.DriverSends,
+      (handleHousekeeping s now).1.links =
+        hkStamp sends now (hkLinksGo s.cfg.classic now (hkPrep s now).2 0 (hkPrep s now).1).1 := by
+  unfold handleHousekeeping hkStamp hkPrep
+  dsimp only
+  generalize hp : (if Reg.isProbing _ = true then _ else _ : Reg.Reg × List (FLink F)) = p
+  generalize hr : hkLinksGo s.cfg.classic now p.2 0 p.1 = r
+  generalize hq : Reg.regDriverPendingSends _ now = q
+  obtain ⟨reg4, sends⟩ := q
+  obtain ⟨r1, r2, r3⟩ := r
+  refine ⟨sends, ?_⟩
+  dsimp only
+  cases sends.broadcastReg2 <;> cases sends.reg1
+  · rfl
+  · rename_i ip
+    obtain ⟨idx, pkt⟩ := ip
+    dsimp only
+    cases r1[idx]? <;> rfl
+  · rfl
+  · rename_i ip
+    obtain ⟨idx, pkt⟩ := ip
+    dsimp only
+    cases r1[idx]? <;> rfl
+
+theorem hkPrep_PW (s : Sys F) (now : Nat) : PW GraceRel s.links (hkPrep s now).2 := by
+  have hrefl : PW GraceRel s.links s.links := PW_refl (fun l => ⟨l.graceDeadline, rfl⟩) _
+  unfold hkPrep
+  split
+  split
+  · split
+    split
+    · split
+      · exact PW_mapIdx _ (fun j l => by
+          split
+          · exact ⟨_, rfl⟩
+          · exact ⟨l.graceDeadline, rfl⟩) _
+      · exact hrefl
+    · exact hrefl
+  · exact hrefl
+
+theorem hkStamp_PW (sends : Reg.DriverSends) (now : Nat) (ls : List (FLink F)) :
+    PW StampRel ls (hkStamp sends now ls) := by
+  have hr : ∀ l : FLink F, StampRel l l := fun l => ⟨rfl, rfl, rfl, rfl⟩
+  have hs : ∀ l : FLink F, StampRel l { l with core := { l.core with lastSent := some now } } :=
+    fun l => ⟨rfl, rfl, rfl, rfl⟩
+  have h2 : PW StampRel ls (match sends.reg1 with
+      | some (idx, _) =>
+        match ls[idx]? with
+        | some l => setAt ls idx { l with core := { l.core with lastSent := some now } }
+        | none => ls
+      | none => ls) := by
+    split
+    · rename_i idx pkt _
+      split
+      · rename_i l hl
+        unfold setAt
+        refine ⟨List.length_mapIdx.symm, fun j x hx => ?_⟩
+        refine ⟨_, by rw [List.getElem?_mapIdx, hx]; rfl, ?_⟩
+        split
+        · rename_i hj
+          subst hj
+          have : x = l := by rw [hl] at hx; exact (Option.some.inj hx).symm
+          subst this
+          exact hs x
+        · exact hr x
+      · exact PW_refl hr _
+    · exact PW_refl hr _
+  unfold hkStamp
+  dsimp only
+  split
+  · exact PW_trans (fun x y z a b => ⟨b.1.trans a.1, b.2.1.trans a.2.1, b.2.2.1.trans a.2.2.1, b.2.2.2.trans a.2.2.2⟩)
+      h2 (PW_map _ hs _)
+  · exact h2
+
+theorem handleHousekeeping_PW (s : Sys F) (now : Nat) (hc : s.cfg.classic = true) :
+    PW (TickRel now) s.links (handleHousekeeping s now).1.links := by
+  obtain ⟨sends, e⟩ := handleHousekeeping_links s now
+  rw [e, hc]
+  have h1 := hkPrep_PW s now
+  have h2 := hkLinksGo_PW now (hkPrep s now).2 0 (hkPrep s now).1
+  have h3 := hkStamp_PW sends now (hkLinksGo true now (hkPrep s now).2 0 (hkPrep s now).1).1
+  have h12 : PW (TickRel now) s.links (hkLinksGo true now (hkPrep s now).2 0 (hkPrep s now).1).1 := by
+    refine PW_trans ?_ h1 h2
+    rintro l l0 l1 ⟨g, rfl⟩ (⟨a, b, c, d, e, f⟩ | ⟨a, b⟩)
+    · exact Or.inr ⟨c, d, e, f, g, a, b⟩
+    · exact Or.inl ⟨a, b⟩
+  refine PW_trans ?_ h12 h3
+  rintro l l1 l2 (⟨a, b⟩ | ⟨a, b, c, d, e⟩) ⟨p, q, r, t⟩
+  · exact Or.inl ⟨p.trans a, q.trans b⟩
+  · exact Or.inr ⟨p.trans a, r.trans b, t.trans c, q.trans d, e⟩
+
+end scalar3
+
 end Srtla.ClassicRef
